@@ -40,6 +40,12 @@ PolyIds == IF Big THEN {<<1,1>>, <<1,2>>, <<1,3>>, <<1,4>>, <<1,5>>, <<2,1>>, <<
 Poly3(id) == EmbedPoly(Frames[id[1]], Flat[id[2]])
 SegEnds == IF Big THEN Lat3(3) ELSE {0, 1, 3} \X {1, 2} \X {0, 1, 2}
 
+ShortMains2 == { << <<0,0>>, <<1,0>> >>, << <<0,0>>, <<0,1>> >>, << <<0,0>>, <<1,1>> >>, << <<1,1>>, <<0,0>> >>,
+                 << <<3,1>>, <<2,1>> >>, << <<1,0>>, <<2,1>> >>, << <<2,3>>, <<1,2>> >> }
+Long3 == (0..3) \X {0, 1} \X {0, 1}
+ShortMains3 == { << <<0,0,0>>, <<1,0,0>> >>, << <<0,0,0>>, <<1,1,0>> >>, << <<3,1,1>>, <<2,1,1>> >>,
+                 << <<0,1,0>>, <<1,0,1>> >>, << <<1,0,0>>, <<0,0,0>> >> }
+
 VARIABLE inp
 Start == [fn |-> "start"]
 Init == inp = Start
@@ -69,6 +75,10 @@ Inputs(fn) ==
              ab \in {s \in Segs(Lat3(1)) : Big \/ s[1] \in {<<0,0,0>>, <<1,0,1>>}}}
          \cup (IF Big THEN {[fn |-> fn, a |-> ab[1], b |-> ab[2], segs |-> (Segs(Lat3(2)))] :
                               ab \in {s \in Segs(Lat3(2)) : s[1] = <<0,0,0>>}} ELSE {})
+         \* short main segments against every segment of a longer lattice: parallel and collinear segments that lie
+         \* entirely beyond either end of the main segment, in both orientations (the clamping branches for parallel pairs)
+         \cup {[fn |-> fn, a |-> ab[1], b |-> ab[2], segs |-> (Segs(Lat2(3)))] : ab \in ShortMains2}
+         \cup {[fn |-> fn, a |-> ab[1], b |-> ab[2], segs |-> (Segs(Long3))] : ab \in ShortMains3}
     [] fn = "segment_set" ->
          {[fn |-> fn, segs |-> <<ab, cd>>] : <<ab, cd>> \in {<< <<0,0>>, <<2,0>> >>, << <<1,1>>, <<0,2>> >>} \X Segs(Lat2(1))}
     [] fn = "points_polygon" ->
